@@ -27,7 +27,7 @@ VERIF = Path(__file__).resolve().parent.parent
 COQ = VERIF / "coq"
 REPO = Path(os.environ.get("VERIF_REPO", "/repo"))
 WORK = VERIF / "work"
-EVID = VERIF / "evidence"
+EVID = Path(os.environ.get("VERIF_EVIDENCE_DIR", str(VERIF / "evidence")))   # mutation experiments write elsewhere
 
 HYGIENE_RE = re.compile(
     r"\b(Admitted|admit|Axiom|Axioms|Parameter|Parameters|Conjecture|Conjectures|Admit Obligations|"
